@@ -15,8 +15,17 @@ FUNCTIONS = ["expand_bfs", "expand_dfs", "expand_minimal_spaces (+make_skip_node
              "SuccessionDiagram.skip_to_minimal", "SuccessionDiagram.minimal_trap_spaces"]
 
 
+def extra_vars(task, net):
+    if task["params"].get("cfg"):
+        return hist.declare_config(fields={"cfg_motifs": "max_motifs_per_node"})
+    return [], []
+
+
 def execute(rules, skeleton, H, names, params):
-    sd, trace = hist.run_history(rules, skeleton, H, names)
+    cfg = None
+    if params.get("cfg"):
+        cfg = hist.read_config(H, isinstance(H, hist.SymH), fields={"cfg_motifs": "max_motifs_per_node"})
+    sd, trace = hist.run_history(rules, skeleton, H, names, config=cfg)
     return {"trace": trace, "mts": sorted(int(i) for i in sd.minimal_trap_spaces())}
 
 
@@ -24,6 +33,8 @@ def assertion(B, rules, skeleton, out, params):
     parts = []
     trace = out["trace"]
     last = trace[-1]
+    if params.get("cfg") and any(e["rec"]["exc"] == "RuntimeError" and "maximum amount of stable motifs" in (e["rec"].get("msg") or "") for e in trace):
+        return [("limit error raised", B.const(True))]      # the documented answer to too many stable motifs: nothing claimed
     for k, ent in enumerate(trace):
         exc = ent["rec"]["exc"]
         # a limit error is a legal outcome of a limited op (C15 covers its aftermath); anything else is not
@@ -92,6 +103,10 @@ def tasks(tier, seed, selftest=False):
             if not q:
                 S.append(dict(family="P:SW2+SW2+SW2", skeleton=(p, f), timebox=600))
                 S.append(dict(family="D3", skeleton=(p, f), timebox=300))
+    # a small (symbolic) max_motifs_per_node: a strategy either raises the documented limit error or completes exactly
+    for f in FINAL_ANY + FINAL_FRESH:
+        S.append(dict(family="U2", skeleton=(f,), timebox=6 if q else 300, tag="cfg", params={"cfg": True}))
+        S.append(dict(family="P:SW2+SW2", skeleton=(f,), timebox=8 if q else 300, tag="cfg", params={"cfg": True}))
     # inputs presented as free inputs (variables without update function)
     for f in FINAL_ANY + FINAL_FRESH:
         S.append(dict(family="S1C2", skeleton=(f,), timebox=8 if q else 600, tag="free-inputs", params={"free_inputs": True}))
